@@ -46,12 +46,13 @@ class State:
 
 
 class Ranges:
-    def __init__(self, repo, mod, fn, track, effects=None, consts=None, callee_accept=None):
+    def __init__(self, repo, mod, fn, track, effects=None, consts=None, callee_accept=None, types=None):
         """track: {key: initial ISet}; effects(node_ast, state) may mutate state for opaque
         statements (e.g. `self.items.pop()` on `len(self.items)`); consts: extra folding env."""
         self.repo, self.mod, self.fn = repo, mod, fn
         self.cfg = cfg_of(fn)
         self.track = dict(track)
+        self.types = dict(types or {})  # key -> ISet the quantity always lies in (e.g. a byte), used when an assignment is opaque
         self.effects = effects
         self.folder = Folder(repo, mod.name, consts or {})
         self.callee_accept = callee_accept or {}
@@ -310,7 +311,7 @@ class Ranges:
                     if k == tkey:
                         st.alias.pop(n2)
             else:
-                st.vals[tkey] = val if val is not None else ISet.top()
+                st.vals[tkey] = val if val is not None else self.types.get(tkey, ISet.top())
                 for n2, (k, m, a) in list(st.alias.items()):
                     if k == tkey:
                         st.alias.pop(n2)
